@@ -35,7 +35,8 @@
 (*                  ss (class defines __setstate__), ds (state is a dict), fs ("no", or   *)
 (*                  the falsy state __getstate__ returns: "d0" {} | "i0" 0 | "t0" () |    *)
 (*                  "s0" '' | "b0" False - standard unpickling calls __setstate__ for     *)
-(*                  every state that is not None)                                         *)
+(*                  every state that is not None; or the class uses __getnewargs_ex__:    *)
+(*                  "xa" args only | "xk" args and kwargs | "xo" kwargs only, state {})   *)
 (*      scn.tp[i]   the node through which pickle reaches i first (0 for node 1)          *)
 (*      scn.loads   <<[patch |-> <<path>>, fail, at, thr]>>: the loads() calls; a patch   *)
 (*                  dictionary is given by its leaf paths: <<"k2","w">> = {k2: {w: X}},   *)
@@ -156,11 +157,13 @@ K_Stale(scn) == \E a \in OptNodes(scn) : scn.g[a].ds /\ \E j \in NamedKids(scn, 
                    Owner(scn, scn.g[a].ent[j].to) # <<a, j>>
 AnyPatch(scn) == \E k \in 1..Len(scn.loads) : scn.loads[k].patch # <<>>
 \* a dict patch two levels down (for the child of a child)
+\* an opt-in class whose __getnewargs_ex__ returns keyword arguments only
+K_KwOnly(scn) == \E c \in OptNodes(scn) : scn.g[c].fs = "xo"
 K_DeepPatch(scn) == \E k \in 1..Len(scn.loads) : \E p \in Rng(scn.loads[k].patch) : Len(p) >= 3
 Known_C14(scn) == K_NoSetstate(scn) \/ K_Siblings(scn)
 Known_C15(scn) == K_NoSetstate(scn) \/ K_Siblings(scn) \/ (AnyPatch(scn) /\ (K_Free(scn) \/ K_Stale(scn)))
 \* remote=False goes through the same restore machinery for classes already registered as opt-in
-Known_C13(scn) == scn.t = "graph" /\ scn.op = "rp" /\ ~scn.remote /\ (scn.marker \/ scn.seen) /\ Known_C14(scn)
+Known_C13(scn) == scn.t = "graph" /\ scn.op = "rp" /\ ~scn.remote /\ (scn.marker \/ scn.seen) /\ (Known_C14(scn) \/ K_KwOnly(scn))
 
 (* ===================================== C13 ===================================== *)
 \* graphs / classes / values that do not opt in: the remote_pickle round trip is the pickle round trip
